@@ -511,6 +511,17 @@ def terminals(tier: str, seed: int):
     ]
     for m in mixes:
         ts.append(("choice", tuple(m)))
+    # every ordered pair of ranges over a 5-point set (incl. empty and one-point ranges): all
+    # relative positions the merge in _optimize_char_class can meet; thorough adds a literal
+    pts = [ord(c) for c in "acdeg"]
+    rs = [("range", lo, hi) for lo in pts for hi in pts]
+    step = 1 if tier == "thorough" else 3
+    pairs = [(a, b) for a in rs for b in rs]
+    for i, (a, b) in enumerate(pairs):
+        if i % step == 0:
+            ts.append(("choice", (a, b)))
+        if tier == "thorough" and i % 5 == 0:
+            ts.append(("choice", (a, ("lit", ord("d")), b)))
     return ts
 
 
@@ -559,7 +570,7 @@ def main(tier: str, seed: int, args) -> int:
     regions = known.regions_for("C12")
     ts = terminals(tier, seed) + uprops(tier)
     tasks = []
-    chunk = 6
+    chunk = 8
     for i in range(0, len(ts), chunk):
         unit = f"term/{i // chunk:04d}"
         tasks.append({"fn": "c12_term", "unit": unit, "terms": ts[i : i + chunk], "regions": {k[len(unit) + 1 :]: v for k, v in regions.items() if k.startswith(unit + "|")}})
